@@ -9,4 +9,7 @@ for p in e_bits e_prim e_uper e_decode e_front e_codegen e_proto; do
 done
 # C19: second build of the decoder engine with the subject's descriptive-deserialize-errors feature
 CARGO_TARGET_DIR=/verif/.target_desc cargo build --release --offline -q -p e_decode --features descriptive 2>&1 | tail -3
+# C09: warm the scratch workspace's target directory (asn1rs + proc macros for `cargo check`)
+cd /verif && ./check C09 quick >/dev/null 2>&1 || true
+git -C /verif checkout -q -- evidence/C09.json 2>/dev/null || true
 echo "setup ok"
